@@ -5,10 +5,9 @@ import fw
 from fw import Corr, Failure, cz, cq, clist, copt
 
 TITLE = 'Envelopes encode to the server format and evaluate consistently'
-TRANSLATED = ['Gen_envtables', 'Gen_builtinsR']
+TRANSLATED = ['Gen_envtables', 'Gen_envR', 'Gen_builtinsR']
 MODEL_TARGETS = ['model/Env.vo']
-ALLOWED_AXIOMS = ['sig_forall_dec', 'sig_not_dec', 'functional_extensionality_dep', 'classic',
-                  'Axioms']   # 'Axioms' is not an axiom: fw.print_assumptions also captures the header line "Axioms:" of Coq's output
+ALLOWED_AXIOMS = ['sig_forall_dec', 'sig_not_dec', 'functional_extensionality_dep', 'classic']
 TRUSTED = [
     'translator harness/translator/t_env.py: Env._SHAPE_NAMES, the numeric-curve shape number, the absent-node constant, '
     'the cubed exponent and the linear threshold of sc3/synth/envelope.py -> gen/Gen_envtables.v; '
@@ -429,6 +428,7 @@ def shrink(ctx, k, eps_t, budget=12):
 SIGNATURES = [
     (lambda b: b['law'] == 'shape_numbers_match_server' and "'sqr'" in b['call'], 'C19:shape_name_sqr'),
     (lambda b: b['law'].startswith('env_at') and ("'cub'" in b['call'] or "'cubed'" in b['call']), 'C19:pow_sign_cub'),
+    (lambda b: b['law'].startswith('env_at') and ("'squared'" in b['call'] or "'sqr'" in b['call']), 'C19:sqr_negative_levels'),
     (lambda b: b['law'] == 'ctor_breakpoints' and b['call'].startswith('Env.step(') and 'TypeError' in b['got'], 'C19:step_default_release'),
 ]
 
